@@ -93,6 +93,12 @@ class World:
     def _effect(self, e):
         """An effect is a name (plain callback) or ('effopt', name, key): a callback whose own
         parameter is read from the options, i.e. an Evaluatable returning the callback."""
+        if isinstance(e, str) and e.startswith("log:"):
+            import logging
+
+            from labrea.logging import LogEffect
+
+            return LogEffect(logging.INFO, "labmc_fixture", "log effect " + e[4:])
         if isinstance(e, str):
             return self.effect_fn(e)
         import labrea.functions as F
